@@ -133,6 +133,9 @@ func runABI(e *core.Env, prop string) error {
 	if err != nil {
 		return err
 	}
+	if prop == "C09" {
+		bigArrays(e)
+	}
 	bigs := func(n int) []*big.Int {
 		two := big.NewInt(2)
 		p := func(k int64) *big.Int { return new(big.Int).Exp(two, big.NewInt(k), nil) }
@@ -358,4 +361,97 @@ func bytes32(b byte) eth.Bytes {
 		out[i] = b
 	}
 	return out
+}
+
+// bigArrays: one log whose array input has MANY elements (around and beyond a thousand), and several logs that
+// add up to such counts, through the real Integration.Insert: one row per element, in the array's order, the
+// scalar input repeated on each — whatever the number of rows and however the COPY is issued.
+func bigArrays(e *core.Env) {
+	op := &aty{kind: 'e', name: "address", sel: true}
+	ids := &aty{kind: 'a', k: 0, elem: &aty{kind: 'e', name: "uint256", sel: true}}
+	ins := []*aty{op, ids}
+	var nc, nn int
+	assignCols(ins, &nc, &nn)
+	ev := eventOf("Batch", ins)
+	cols := []wpg.Column{{Name: op.col, Type: "bytea"}, {Name: ids.elem.col, Type: "numeric"}}
+	for _, counts := range [][]int{{1}, {3, 2}, {999}, {1000}, {1001}, {1500}, {2500}, {700, 301}, {4099}, {1024, 1, 1023}} {
+		evc := ev
+		ig, _, err := buildIG("big", "t_big", nil, &evc, cols, "", nil)
+		if err != nil {
+			e.Add(core.Case{Impl: "declaration refused: " + err.Error(), Spec: "ok", Key: fmt.Sprintf("c09-big %v", counts), Nontrivial: true, Tags: []string{"big-array"}})
+			continue
+		}
+		var b eth.Block
+		b.Header.Number = 9
+		tx := eth.Tx{}
+		tx.PrecompHash = bytes32(0x55)
+		var want []string
+		next := int64(1)
+		for li, n := range counts {
+			data := append(append(append([]byte{}, bytes32(byte(0xA0 + li))[12:]...), make([]byte, 0)...))
+			data = append(make([]byte, 12), data...) // the address word
+			data = append(data, word(big.NewInt(64))...)
+			data = append(data, word(big.NewInt(int64(n)))...)
+			for k := 0; k < n; k++ {
+				data = append(data, word(big.NewInt(next))...)
+				want = append(want, fmt.Sprintf("%x/%d", bytes32(byte(0xA0 + li))[12:], next))
+				next++
+			}
+			tx.Logs = append(tx.Logs, eth.Log{Idx: eth.Uint64(li), Address: bytes32(0x22)[:20], Topics: []eth.Bytes{append(eth.Bytes(nil), ev.SignatureHash()...)}, Data: data})
+		}
+		b.Txs = eth.Txs{tx}
+		var mu sync.Mutex
+		conn := &fakeConn{}
+		verdict := core.Protect(func() string {
+			if _, err := ig.Insert(e2eCtx("src1", 7), &mu, conn, []eth.Block{b}); err != nil {
+				return "insert failed: " + err.Error()
+			}
+			return "ok"
+		})
+		if verdict == "ok" {
+			var got []string
+			for _, cc := range conn.copies {
+				oi, ii := -1, -1
+				for k, c := range cc.Cols {
+					switch c {
+					case op.col:
+						oi = k
+					case ids.elem.col:
+						ii = k
+					}
+				}
+				for _, rw := range cc.Rows {
+					if oi < 0 || ii < 0 {
+						got = append(got, "row without the declared columns")
+						continue
+					}
+					got = append(got, fmt.Sprintf("%x/%v", rw[oi], renderNum(rw[ii])))
+				}
+			}
+			switch {
+			case len(got) != len(want):
+				verdict = fmt.Sprintf("%d array elements in all, %d rows written (in %d COPY calls)", len(want), len(got), len(conn.copies))
+			default:
+				for k := range want {
+					if got[k] != want[k] {
+						verdict = fmt.Sprintf("row %d is %s, element %d of the data is %s", k, got[k], k, want[k])
+						break
+					}
+				}
+			}
+		}
+		e.Add(core.Case{Impl: verdict, Spec: "ok", Key: fmt.Sprintf("c09-big %v", counts), Nontrivial: true, Tags: []string{"big-array", fmt.Sprintf("rows=%d", len(want))},
+			Detail: map[string]any{"event": "Batch(address operator, uint256[] ids)", "elements_per_log": counts}})
+	}
+}
+
+// renderNum: a COPY value holding an unsigned integer, as decimal text
+func renderNum(v any) string {
+	switch x := v.(type) {
+	case fmt.Stringer:
+		return x.String()
+	case []byte:
+		return new(big.Int).SetBytes(x).String()
+	}
+	return fmt.Sprint(v)
 }
